@@ -29,7 +29,7 @@ RATES = [3e9, 2.4e9, 1.7e8, 1e6, 48000.0, 1.5e9, 2999999987.0, 104729.0, 2.79396
 
 def required(tier):
     b = {'kind:arith': 100, 'kind:record': 30, 'duration:exact-multiple': 50, 'duration:ulp-neighbour': 30, 'duration:random': 30, 'duration:just-below-boundary': 100, 'duration:many-blocks': 100, 'record:from_data-longer-than-input': 4, 'record:from_data-shorter-than-input': 4, 'record:second-recording-same-source': 20, 'record:template-on': 20, 'record:template-off': 20,
-         'record:obs_length-mode': 10, 'record:num_blocks-mode': 10, 'bits:4': 20, 'array': 20}
+         'record:obs_length-mode': 10, 'record:num_blocks-mode': 10, 'record:other-length-keyword-also-given': 10, 'bits:4': 20, 'array': 20}
     return {'buckets': b, 'counters': {'durations_judged': 500, 'ledgered_requests': 100}, 'checks': 3000, 'nontrivial': 100}
 
 
@@ -218,14 +218,19 @@ def run_case(c, R):
     pkt0 = 4096 if common.stratum(c['_idx'], 202, 2) else 0
     hd1 = {'PKTIDX': pkt0} if pkt0 else {}
     R.bucket('record:template-' + ('on' if tmpl else 'off'))
+    # a caller that forwards both length keywords: only the one the length mode names counts
+    both = bool(common.stratum(c['_idx'], 203, 2))
+    if both:
+        R.bucket('record:other-length-keyword-also-given')
     if c['mode'] == 'num_blocks':
-        rec = work_raw.do_record(stg, cfg, stem, rvb=rvb, src=src, load_template=tmpl, header_dict=dict(hd1))
+        extra_ = dict(obs_length=(cfg['nblocks'] + 3.3) * float(rvb.time_per_block)) if both else {}
+        rec = work_raw.do_record(stg, cfg, stem, rvb=rvb, src=src, load_template=tmpl, header_dict=dict(hd1), **extra_)
         n = cfg['nblocks']
     else:
         T = (cfg['nblocks'] + c['frac']) * float(rvb.time_per_block)
         adm, x = blocks_for(T, tpb)
-        rec = work_raw.do_record(stg, cfg, stem, rvb=rvb, src=src, num_blocks=None, obs_length=T, length_mode='obs_length', load_template=tmpl,
-                                 header_dict=dict(hd1))
+        rec = work_raw.do_record(stg, cfg, stem, rvb=rvb, src=src, num_blocks=(cfg['nblocks'] + 3) if both else None, obs_length=T,
+                                 length_mode='obs_length', load_template=tmpl, header_dict=dict(hd1))
         n = rvb.num_blocks
         R.check(n in adm, 'record-obs_length-blocks', T=T, got=int(n), admissible=sorted(adm))
         band = 1 + Fraction(1, 10 ** 9)
